@@ -686,6 +686,10 @@ func OracleTypes(prop string, v *View) []Violation {
 	if c != nil && c.Returned {
 		if c.ErrClass == "bug" {
 			vv := viol(prop, "bug-error", bugShape(c.Err), "run returned an internal consistency error: %s", c.Err)
+			if strings.Contains(c.Err, "This field is required") && strings.Contains(c.Err, "schema evaluation resulted in invalid data") && optionalFeedsRequired(v.C.Program) {
+				// a wait-optional in the required field `a` of a step, absent in this run (known finding KF-C08-4)
+				vv.Shape += "; an optional expression feeds a required field"
+			}
 			if strings.Contains(c.Err, "'hl' -> '[") {
 				// the generated list of two differently shaped objects: its item schema is inferred from the
 				// first item only (known finding KF-C08-3)
@@ -713,7 +717,11 @@ func OracleTypes(prop string, v *View) []Violation {
 		}
 	}
 	for _, b := range v.R.BugLogs {
-		add(viol(prop, "bug-log", bugShape(b), "engine logged an internal consistency error: %s", b))
+		sh := bugShape(b)
+		if strings.Contains(b, "This field is required") && strings.Contains(b, "schema evaluation resulted in invalid data") && optionalFeedsRequired(v.C.Program) {
+			sh += "; an optional expression feeds a required field"
+		}
+		add(viol(prop, "bug-log", sh, "engine logged an internal consistency error: %s", b))
 		break
 	}
 	return out
@@ -1056,6 +1064,21 @@ func anyGiveUpWithHeldUpGoroutine(r *harness.Result) bool {
 	for i := range r.Snapshots {
 		if _, held, _ := snapshotShape(&r.Snapshots[i]); held {
 			return true
+		}
+	}
+	return false
+}
+
+// optionalFeedsRequired reports whether some plugin step's required input `a` is an optional expression.
+func optionalFeedsRequired(p *ir.Program) bool {
+	for _, st := range p.Steps {
+		if st.Kind != "plugin" {
+			continue
+		}
+		for _, f := range st.In {
+			if f.Name == "a" && f.E != nil && f.E.K == "opt" && f.E.Tag != "ordisabled" {
+				return true
+			}
 		}
 	}
 	return false
